@@ -28,7 +28,7 @@ def observe_path(frame, use_kaitai, scribble=False):
         o["timeslot"], o["seq"] = int(b.timeslot), int(b.sequence_no)
         o["cc"] = int(b.hytera_ipsc.color_code)
         o["src"], o["dst"] = int(b.source_radio_id), int(b.target_radio_id)
-        # ids as decoded from the frame (a burst with destination 0 guesses its target from the payload, by design)
+        # ids as decoded from the frame
         o["fsrc"], o["fdst"] = int(b.hytera_ipsc.source_radio_id), int(b.hytera_ipsc.destination_radio_id)
         try:
             o["reser"] = list(b.hytera_ipsc.as_ipsc_bytes())
@@ -46,9 +46,9 @@ def run(ctx):
                 "types x frame types x call types x colour codes 0..15 x both timeslots x ids {0,1,2^24-1,random, zero / all-ones octets in each position} x random reserved bytes, "
                 "payload = a burst valid for the indicated kind (data bursts by data type, voice bursts, sync / wake-up). distinct = frames.")
     ctx.assumptions += [
-        "a wake-up call type (2, 12) indicates a wake-up burst in every slot but the sync slot; such frames are generated with the empty payload of the captured wake-up frames (a data payload there is not 'a payload that parses as the indicated kind')",
+        "a wake-up call type (2, 12) indicates a wake-up burst in every slot but the sync slot; a sync / wake-up payload has no structure, so any 34 octets - the empty payload of the captured frames, random octets, a whole DMR data or voice burst - are 'a payload that parses as the indicated kind'",
         "well-formed frame: 0x5A5A, colour nibble repeated four times, low octet of both id fields zero, timeslot 0x1111/0x2222 (the 34th payload octet is arbitrary); frames with unknown packet / frame types are folded with a warning by design and are not generated",
-        "colour code and ids 'as the frame encodes them' are compared on the decoded IPSC object (a burst only knows the colour code of its own slot type / EMB and guesses a zero destination from its payload); the two decoders are also compared on the burst's own ids",
+        "colour code and ids 'as the frame encodes them' are compared on the decoded IPSC object (a burst only knows the colour code of its own slot type / EMB); the burst's own ids must equal the frame's too, id 0 included; the two decoders are also compared on the burst's own ids",
     ]
     core.setup_repo_path()
     import random
@@ -107,8 +107,13 @@ def run(ctx):
                                     rng.randrange(1 << 16) << 8, rng.randrange(1 << 8) << 16])
         # the call types cross every slot type: a wake-up call type (2, 12) also turns up in sync, data and voice slots
         call = rng.choice([0, 1, 0, 1, 2, 12]) if slot != 0xDDDD else rng.choice([0, 1, 2, 12])
-        if call in (2, 12) and slot not in (0xDDDD, 0xEEEE):
-            burst = bytes(33)            # the indicated kind is then a wake-up burst, whose payload is empty as in the captured ones
+        if call in (2, 12) and slot not in (0xDDDD, 0xEEEE) and rng.random() < 0.5:
+            burst = bytes(33)            # the indicated kind is then a wake-up burst: half with the empty payload of the captured ones,
+            #                              half with the payload the slot type names (a wake-up payload has no structure: any octets do)
+        if slot in (0xDDDD, 0xEEEE) and k % 3 == 0:
+            # sync / wake-up payloads have no structure either: among "arbitrary" octets are those of a DMR data or voice burst
+            pdu, dt, _ = make_pdu(rng, rng.choice(list(kinds)))
+            burst = rng.choice([gen.assemble_data_burst(pdu, dt, cc, rng.choice(gen.DATA_SYNCS)), gen.voice_sync_burst(rng), gen.rbytes(rng, 33)])
         # "arbitrary reserved bytes" include the segments a serialiser might take for absent: all zeros, all ones
         res = lambda n_: rng.choice([gen.rbytes(rng, n_), gen.rbytes(rng, n_), bytes(n_), b"\xff" * n_])
         f = (res(2) + b"ZZ" + bytes([rng.choice([0, 1, 255, rng.randrange(256)])]) + res(3)
